@@ -235,4 +235,27 @@ theorem gen_leaf_mutation_eq (old_peaks : List D) (leaf_count : Nat) (new_leaf :
     rw [this]
     rfl
 
+/-! ### `bag_peaks` (P10): `next_back` twice, then `rev().fold(acc, |acc, &peak| hash_pair(peak, acc))` -/
+
+/-- regenerated `shared::bag_peaks` = the hand model, for every hash, every list of peaks (no check can fail) -/
+theorem gen_bag_peaks_eq (hash0 : D) (ps : List D) :
+    Loops.mmr_bag_peaks H d0 hash0 ps = bag_peaks H hash0 ps ∧ Loops.mmr_bag_peaks_ok H d0 hash0 ps = true := by
+  refine ⟨?_, rfl⟩
+  unfold Loops.mmr_bag_peaks bag_peaks
+  generalize hr : ps.reverse = r
+  have hps : ps = r.reverse := by rw [← hr, List.reverse_reverse]
+  subst hps
+  cases r with
+  | nil => rfl
+  | cons a r =>
+    have e1 : ((a :: r).reverse).isEmpty = false := by simp
+    have e2 : ((a :: r).reverse).dropLast = r.reverse := by simp
+    simp only [e1, Bool.false_eq_true, if_false, pop_rev, e2]
+    cases r with
+    | nil => rfl
+    | cons b r =>
+      have e3 : ((b :: r).reverse).isEmpty = false := by simp
+      have e4 : ((b :: r).reverse).dropLast = r.reverse := by simp
+      simp only [e3, Bool.false_eq_true, if_false, pop_rev, e4, List.reverse_reverse]
+
 end TF.GenBridge.MmrPeaks
